@@ -44,7 +44,7 @@ def effective(dialect, cfg):
     return e
 
 
-def split_lines(text, nl):
+def split_lines(text, nl, units_content=False):
     """physical lines; a line break inside a quoted string is content"""
     lines, cur, q, i = [], "", None, 0
     while i < len(text):
@@ -57,6 +57,11 @@ def split_lines(text, nl):
             continue
         if c in "\"'":
             q = c
+            cur += c
+            i += 1
+            continue
+        if c == "<" and units_content:
+            q = ">"             # white space inside a units expression is content as well
             cur += c
             i += 1
             continue
@@ -106,7 +111,7 @@ def check(text, module, dialect, cfg):
             raise Bad("charset", "U+%04X" % o)
     if dialect == "PDS3" and cfg.get("tab_replace", 4) and "\t" in text:
         raise Bad("tab", "tab character in PDS3 output")
-    lines, tail = split_lines(text, nl)
+    lines, tail = split_lines(text, nl, units_content=not odl)
     if odl:
         if tail != "":
             raise Bad("final-line-end", "text does not end with a line end after END")
